@@ -200,7 +200,12 @@ Definition model11 (cs : case11) : bool * bool :=
         forallb (fun x : tensor Q * (dimlist * list Q) => Qlist_eqb (tabulate (fst x)) (snd (snd x)))
                 (combine outs iouts) )
     | Err k, Err k' => (true, ekind_eqb k k')
-    | _, _ => (false, true)
+    | _, _ =>
+      (* a call whose dummy names are not bound consistently to real axes (one dummy for two axes, one
+         axis for two dummies) is outside what the model describes: the package does not detect it as
+         such, what happens downstream (a transposition with a repeated dimension, ...) is xarray's and
+         NumPy's business.  The specification (spec11) does not constrain such calls either. *)
+      (negb (binding_consistent s (c11_axis cs)), true)
     end
   | _, _ => (true, true)
   end.
